@@ -40,7 +40,9 @@ Definition is_uq (k:cons) : bool := negb (is_ix k).
 Record fkopts := mkFkOpts { o_onupdate : option (list N); o_ondelete : option (list N); o_deferrable : option bool;
                             o_initially : option (list N) }.
 Definition no_opts : fkopts := mkFkOpts None None None None.
-Record fk := mkFk { f_name : N; f_cols : list N; f_rtable : N; f_rcols : list N; f_opts : fkopts }.
+(* f_named = false: the constraint has no name (SQLite reflects a key declared without CONSTRAINT <name> with name None);
+   f_name is then only a handle that tells the keys of a table apart, never shown to alembic *)
+Record fk := mkFk { f_name : N; f_cols : list N; f_rtable : N; f_rcols : list N; f_opts : fkopts; f_named : bool }.
 
 Record table := mkTable { t_name : N; t_cols : list col; t_cons : list cons; t_fks : list fk }.
 Definition schema := list table.
@@ -61,7 +63,7 @@ Definition fkopts_eqb (a b:fkopts) : bool :=
   opt_eqb (list_eqb N.eqb) (o_onupdate a) (o_onupdate b) && opt_eqb (list_eqb N.eqb) (o_ondelete a) (o_ondelete b)
   && opt_eqb Bool.eqb (o_deferrable a) (o_deferrable b) && opt_eqb (list_eqb N.eqb) (o_initially a) (o_initially b).
 Definition fk_eqb (a b:fk) : bool :=
-  N.eqb (f_name a) (f_name b) && list_eqb N.eqb (f_cols a) (f_cols b) && N.eqb (f_rtable a) (f_rtable b)
+  Bool.eqb (f_named a) (f_named b) && (negb (f_named a) || N.eqb (f_name a) (f_name b)) && list_eqb N.eqb (f_cols a) (f_cols b) && N.eqb (f_rtable a) (f_rtable b)
   && list_eqb N.eqb (f_rcols a) (f_rcols b) && fkopts_eqb (f_opts a) (f_opts b).
 Definition cons_eqb (a b:cons) : bool :=
   match a, b with
@@ -95,13 +97,13 @@ Inductive op :=
 | OpAddCons (t:N) (k:cons)
 | OpDropCons (t:N) (ix:bool) (n:N)
 | OpAddFk (t:N) (f:fk)            (* CreateForeignKeyOp *)
-| OpDropFk (t:N) (n:N).           (* DropConstraintOp(type_='foreignkey') *)
+| OpDropFk (t:N) (n:N) (named:bool).   (* DropConstraintOp(type_='foreignkey'); named = false: constraint_name is None *)
 
 Definition op_table (o:op) : N :=
   match o with
   | OpCreateTable t => t_name t
   | OpDropTable t | OpAddColumn t _ | OpDropColumn t _ | OpAlterColumn t _ _ _ _ _ _ _ | OpAddCons t _ | OpDropCons t _ _
-  | OpAddFk t _ | OpDropFk t _ => t
+  | OpAddFk t _ | OpDropFk t _ _ => t
   end.
 
 (* ---------------------------------------------------------------- DDL meaning *)
@@ -127,7 +129,7 @@ Definition apply_kop (o:op) (ks:list cons) : list cons :=
 Definition apply_fop (o:op) (fs:list fk) : list fk :=
   match o with
   | OpAddFk _ f => fs ++ [f]
-  | OpDropFk _ n => kremove f_name n fs
+  | OpDropFk _ n _ => kremove f_name n fs
   | _ => fs
   end.
 Definition apply_top (o:op) (t:table) : table :=
@@ -155,11 +157,11 @@ Fixpoint dbl_quotes (s:list N) : list N :=
 Definition is_digit_or_dot (x:N) : bool := (N.leb 48 x && N.leb x 57) || N.eqb x 46.
 
 (* str.lower / str.upper on ASCII letters *)
-Definition lower_char (x:N) : N := if N.leb 65 x && N.leb x 90 then x + 32 else x.
-Definition upper_char (x:N) : N := if N.leb 97 x && N.leb x 122 then x - 32 else x.
+Definition lower_char (x:N) : N := (if N.leb 65 x && N.leb x 90 then x + 32 else x)%N.
+Definition upper_char (x:N) : N := (if N.leb 97 x && N.leb x 122 then x - 32 else x)%N.
 Definition lower (s:list N) : list N := map lower_char s.
 Definition upper (s:list N) : list N := map upper_char s.
-Definition s_no_action : list N := [110;111;32;97;99;116;105;111;110].     (* no action *)
+Definition s_no_action : list N := [110;111;32;97;99;116;105;111;110]%N.     (* no action *)
 
 (* SQLiteImpl._guess_if_default_is_unparenthesized_sql_expr *)
 Definition guess_if_default_is_unparenthesized_sql_expr (expr:list N) : bool :=
@@ -194,7 +196,7 @@ Definition reflect_action (a:option (list N)) : option (list N) :=
   match a with Some s => if list_eqb N.eqb (lower s) s_no_action then None else Some (upper s) | None => None end.
 Definition reflect_fkopts (o:fkopts) : fkopts :=
   mkFkOpts (reflect_action (o_onupdate o)) (reflect_action (o_ondelete o)) (o_deferrable o) (option_map upper (o_initially o)).
-Definition reflect_fk (f:fk) : fk := mkFk (f_name f) (f_cols f) (f_rtable f) (f_rcols f) (reflect_fkopts (f_opts f)).
+Definition reflect_fk (f:fk) : fk := mkFk (f_name f) (f_cols f) (f_rtable f) (f_rcols f) (reflect_fkopts (f_opts f)) (f_named f).
 Definition reflect_table (t:table) : table := mkTable (t_name t) (map reflect_col (t_cols t)) (t_cons t) (map reflect_fk (t_fks t)).
 Definition reflect_sqlite (S:schema) : schema := map reflect_table S.
 
